@@ -18,6 +18,23 @@ func histGen(name string, o GenOpt) func(r *Rng) (string, *HistInput) {
 	return func(r *Rng) (string, *HistInput) { return name, genHistory(r, o) }
 }
 
+// faultyGen: histories in which 1-2 of the first 24 scripted handler
+// invocations panic (recovered by the machine: the recovery paths).
+func faultyGen(o GenOpt) func(r *Rng) (string, *HistInput) {
+	return func(r *Rng) (string, *HistInput) {
+		f := o
+		f.VetoPct, f.MinStates = 5, 3
+		in := genHistory(r, f)
+		for len(in.Actions) < 24 {
+			in.Actions = append(in.Actions, HAction{Ret: true})
+		}
+		for k := 0; k < r.Range(1, 2); k++ {
+			in.Actions[r.Intn(24)].Fault = "panic"
+		}
+		return "faults", in
+	}
+}
+
 func init() {
 	base := GenOpt{MinStates: 2, MaxStates: 8, AutoPct: 25, MultiPct: 25, MinCalls: 1,
 		MaxCalls: 30, Health: true, Checks: true, AddErr: true}
@@ -95,9 +112,10 @@ func init() {
 			return "multi-tracer", in
 		}
 		return runHistCases(c, "C14", "EvalC14",
-			[]func(r *Rng) (string, *HistInput){histGen("handlers", o), multi, histGen("no-handlers", base)},
+			[]func(r *Rng) (string, *HistInput){histGen("handlers", o), multi, histGen("no-handlers", base), faultyGen(o)},
 			600, 20000,
-			"random schemas and histories with queued (nested), prepended auto, check and canceled mutations; 1-3 "+
+			"random schemas and histories with queued (nested), prepended auto, check and canceled mutations, and (every "+
+				"4th case) 1-2 handler invocations that panic and are recovered; 1-3 "+
 				"recording tracers bound via Opts.Tracers; Machine.Time sampled inside TransitionEnd and after every call; "+
 				"distinct by (input, observation); non-trivial = at least one transition", nil)
 	})
@@ -111,19 +129,7 @@ func init() {
 		mr.Shape, mr.AutoPct = "mutualremove", 50
 		rc := o
 		rc.Shape = "requirechain"
-		// histories with a recovered panic (the recovery paths rebuild the active list)
-		faulty := func(r *Rng) (string, *HistInput) {
-			f := o
-			f.VetoPct, f.MinStates = 5, 3
-			in := genHistory(r, f)
-			for len(in.Actions) < 24 {
-				in.Actions = append(in.Actions, HAction{Ret: true})
-			}
-			for k := 0; k < r.Range(1, 2); k++ {
-				in.Actions[r.Intn(24)].Fault = "panic"
-			}
-			return "faults", in
-		}
+		faulty := faultyGen(o)
 		reruns := 64
 		if c.Thorough() {
 			reruns = 256
